@@ -3,6 +3,622 @@ import FinamModel.Spill
 namespace Finam.SP
 open Finam Finam.TA
 
-theorem val_inRam (v : Rat) (n : Nat) : val (.inRam v n) = v := rfl
+/-- the buffer as the all-in-RAM reference sees it -/
+def mapE (e : Entry Stored) : Entry Rat := ⟨e.t, val e.v⟩
+
+/-- every buffered entry can be unpacked and yields the magnitude it stands for -/
+def HAll (u : Stored → Except Err Rat) (d : List (Entry Stored)) : Prop :=
+  ∀ e ∈ d, u e.v = .ok (val e.v)
+
+theorem HAll.tail {u e d} (h : HAll u (e :: d)) : HAll u d := fun x hx => h x (List.mem_cons_of_mem _ hx)
+theorem HAll.head {u e d} (h : HAll u (e :: d)) : u e.v = .ok (val e.v) := h e (by simp)
+
+/-! ### Range checks and selections commute with resolving the entries -/
+
+theorem lastT_map (e0 : Entry Stored) (es : List (Entry Stored)) :
+    lastT (mapE e0) (es.map mapE) = lastT e0 es := by
+  induction es generalizing e0 with
+  | nil => rfl
+  | cons e es ih => simp only [List.map, lastT]; exact ih e
+
+theorem lastE_map (e0 : Entry Stored) (es : List (Entry Stored)) :
+    lastE (mapE e0) (es.map mapE) = mapE (lastE e0 es) := by
+  induction es generalizing e0 with
+  | nil => rfl
+  | cons e es ih => simp only [List.map, lastE]; exact ih e
+
+theorem lastE_mem {α} (e0 : Entry α) (es : List (Entry α)) : lastE e0 es ∈ e0 :: es := by
+  induction es generalizing e0 with
+  | nil => simp [lastE]
+  | cons e es ih => simp only [lastE]; exact List.mem_cons_of_mem _ (ih e)
+
+theorem checkRange_map (d : List (Entry Stored)) (t : Int) : checkRange (d.map mapE) t = checkRange d t := by
+  cases d with
+  | nil => rfl
+  | cons e0 es =>
+    simp only [List.map, checkRange, lastE_map]
+    rfl
+
+theorem lookupAux_S (u) (p : Entry Stored) (l : List (Entry Stored)) (t : Int)
+    (hp : u p.v = .ok (val p.v)) (h : HAll u l) :
+    thenUnpack u (lookupAux p l t) = single (lookupAux (mapE p) (l.map mapE) t) := by
+  induction l generalizing p with
+  | nil => rfl
+  | cons e es ih =>
+    simp only [List.map, lookupAux]
+    have he := h.head
+    by_cases h1 : t > e.t
+    · have : t > (mapE e).t := h1
+      simp only [h1, this, if_true]; exact ih e he h.tail
+    · have h1' : ¬ t > (mapE e).t := h1
+      simp only [h1, h1', if_false]
+      by_cases h2 : t = e.t
+      · have : t = (mapE e).t := h2
+        simp only [h2, if_true]
+        simp [thenUnpack, single, he, mapE]
+      · have h2' : ¬ t = (mapE e).t := h2
+        simp only [h2, h2', if_false]
+        have e1 : (mapE p).t = p.t := rfl
+        have e2 : (mapE e).t = e.t := rfl
+        rw [e1, e2]
+        split <;> simp [thenUnpack, single, he, hp, mapE]
+
+theorem lookup_S (u) (d : List (Entry Stored)) (t : Int) (h : HAll u d) :
+    thenUnpack u (lookup d t) = single (lookup (d.map mapE) t) := by
+  cases d with
+  | nil => rfl
+  | cons e0 es =>
+    simp only [List.map, lookup, lastT_map]
+    have e1 : (mapE e0).t = e0.t := rfl
+    rw [e1]
+    by_cases h1 : t < e0.t ∨ t > lastT e0 es
+    · simp [h1, thenUnpack, single]
+    · simp only [h1, if_false]
+      by_cases h2 : t = e0.t
+      · simp [h2, thenUnpack, single, h.head, mapE]
+      · simp only [h2, if_false]
+        exact lookupAux_S u e0 es t h.head h.tail
+
+theorem nextLoop_S (u) (l : List (Entry Stored)) (t : Int) (h : HAll u l) :
+    thenUnpack u (nextLoop l t) = single (nextLoop (l.map mapE) t) := by
+  induction l with
+  | nil => rfl
+  | cons e es ih =>
+    simp only [List.map, nextLoop]
+    have e2 : (mapE e).t = e.t := rfl
+    rw [e2]
+    by_cases h1 : t > e.t
+    · simp only [h1, if_true]; exact ih h.tail
+    · simp [h1, thenUnpack, single, h.head, mapE]
+
+theorem nextInterp_S (u) (d : List (Entry Stored)) (t : Int) (h : HAll u d) :
+    thenUnpack u (nextInterp d t) = single (nextInterp (d.map mapE) t) := by
+  cases d with
+  | nil => rfl
+  | cons e0 es =>
+    cases es with
+    | nil => simp [nextInterp, thenUnpack, single, h.head, mapE]
+    | cons e1 es' =>
+      have := nextLoop_S u (e0 :: e1 :: es') t h
+      simpa [nextInterp] using this
+
+theorem prevLoop_S (u) (p : Entry Stored) (l : List (Entry Stored)) (t : Int)
+    (hp : u p.v = .ok (val p.v)) (h : HAll u l) :
+    thenUnpack u (prevLoop p l t) = single (prevLoop (mapE p) (l.map mapE) t) := by
+  induction l generalizing p with
+  | nil => rfl
+  | cons e es ih =>
+    simp only [List.map, prevLoop]
+    have e2 : (mapE e).t = e.t := rfl
+    rw [e2]
+    by_cases h1 : t > e.t
+    · simp only [h1, if_true]; exact ih e h.head h.tail
+    · simp only [h1, if_false]
+      by_cases h2 : t = e.t
+      · simp [h2, thenUnpack, single, h.head, mapE]
+      · simp [h2, thenUnpack, single, hp, mapE]
+
+theorem prevInterp_S (u) (d : List (Entry Stored)) (t : Int) (h : HAll u d) :
+    thenUnpack u (prevInterp d t) = single (prevInterp (d.map mapE) t) := by
+  cases d with
+  | nil => rfl
+  | cons e0 es =>
+    cases es with
+    | nil => simp [prevInterp, thenUnpack, single, h.head, mapE]
+    | cons e1 es' =>
+      have hl : u (lastE e0 (e1 :: es')).v = .ok (val (lastE e0 (e1 :: es')).v) := h _ (lastE_mem e0 (e1 :: es'))
+      have := prevLoop_S u (lastE e0 (e1 :: es')) (e0 :: e1 :: es') t hl h
+      simp only [prevInterp, List.map]
+      rw [this]
+      have := lastE_map e0 (e1 :: es')
+      simp only [List.map] at this
+      rw [this]
+      rfl
+
+theorem stepLoop_S (u) (pos : Rat) (p : Entry Stored) (l : List (Entry Stored)) (t : Int)
+    (hp : u p.v = .ok (val p.v)) (h : HAll u l) :
+    thenUnpack u (stepLoop pos p l t) = single (stepLoop pos (mapE p) (l.map mapE) t) := by
+  induction l generalizing p with
+  | nil => rfl
+  | cons e es ih =>
+    simp only [List.map, stepLoop]
+    have e1 : (mapE p).t = p.t := rfl
+    have e2 : (mapE e).t = e.t := rfl
+    rw [e1, e2]
+    by_cases h1 : t > e.t
+    · simp only [h1, if_true]; exact ih e h.head h.tail
+    · simp only [h1, if_false]
+      by_cases h2 : t = e.t
+      · simp [h2, thenUnpack, single, h.head, mapE]
+      · simp only [h2, if_false, stepSel]
+        split <;> simp [thenUnpack, single, hp, h.head, mapE]
+
+theorem stepInterp_S (u) (pos : Rat) (d : List (Entry Stored)) (t : Int) (h : HAll u d) :
+    thenUnpack u (stepInterp pos d t) = single (stepInterp pos (d.map mapE) t) := by
+  cases d with
+  | nil => rfl
+  | cons e0 es =>
+    cases es with
+    | nil => simp [stepInterp, thenUnpack, single, h.head, mapE]
+    | cons e1 es' =>
+      have hl : u (lastE e0 (e1 :: es')).v = .ok (val (lastE e0 (e1 :: es')).v) := h _ (lastE_mem e0 (e1 :: es'))
+      have := stepLoop_S u pos (lastE e0 (e1 :: es')) (e0 :: e1 :: es') t hl h
+      simp only [stepInterp, List.map]
+      rw [this]
+      have := lastE_map e0 (e1 :: es')
+      simp only [List.map] at this
+      rw [this]
+      rfl
+
+theorem linLoop_S (u) (p : Entry Stored) (l : List (Entry Stored)) (t : Int)
+    (hp : u p.v = .ok (val p.v)) (h : HAll u l) :
+    linLoopS u p l t = linLoop (mapE p) (l.map mapE) t := by
+  induction l generalizing p with
+  | nil => rfl
+  | cons e es ih =>
+    simp only [List.map, linLoopS, linLoop]
+    have e1 : (mapE p).t = p.t := rfl
+    have e2 : (mapE e).t = e.t := rfl
+    rw [e1, e2]
+    by_cases h1 : t > e.t
+    · simp only [h1, if_true]; exact ih e h.head h.tail
+    · simp only [h1, if_false]
+      by_cases h2 : t = e.t
+      · simp [h2, h.head, mapE]
+      · simp [h2, hp, h.head, mapE]
+
+theorem linInterp_S (u) (d : List (Entry Stored)) (t : Int) (h : HAll u d) :
+    linInterpS u d t = linInterp (d.map mapE) t := by
+  cases d with
+  | nil => rfl
+  | cons e0 es =>
+    cases es with
+    | nil => simp [linInterpS, linInterp, h.head, mapE]
+    | cons e1 es' =>
+      have hl : u (lastE e0 (e1 :: es')).v = .ok (val (lastE e0 (e1 :: es')).v) := h _ (lastE_mem e0 (e1 :: es'))
+      have := linLoop_S u (lastE e0 (e1 :: es')) (e0 :: e1 :: es') t hl h
+      simp only [linInterpS, linInterp, List.map]
+      rw [this]
+      have := lastE_map e0 (e1 :: es')
+      simp only [List.map] at this
+      rw [this]
+      rfl
+
+theorem stack_S (u) (d : List (Entry Stored)) (t : Int) (h : HAll u d) :
+    unpackAll u (stackInterp d t) = .ok ((stackInterp (d.map mapE) t).map (·.v)) := by
+  induction d with
+  | nil => rfl
+  | cons e es ih =>
+    simp only [List.map, stackInterp]
+    have e2 : (mapE e).t = e.t := rfl
+    rw [e2]
+    by_cases h1 : t > e.t
+    · simp only [h1, if_true, unpackAll, h.head, ih h.tail, List.map]
+      rfl
+    · simp only [h1, if_false, unpackAll, h.head, List.map]
+      rfl
+
+theorem loop_S (u) (step : Option Rat) (scaled : Bool) (prev t : Int) (old : Entry Rat)
+    (l : List (Entry Stored)) (acc : Option Rat) (h : HAll u l) :
+    loopS u step scaled prev t old l acc = .ok (TI.loop step scaled prev t old (l.map mapE) acc) := by
+  induction l generalizing old acc with
+  | nil => rfl
+  | cons e es ih =>
+    simp only [List.map, loopS, TI.loop, h.head]
+    have e2 : (mapE e).t = e.t := rfl
+    have e3 : (⟨e.t, val e.v⟩ : Entry Rat) = mapE e := rfl
+    rw [e2, e3]
+    by_cases h1 : prev ≥ e.t
+    · simp only [h1, if_true]; exact ih (mapE e) acc h.tail
+    · simp only [h1, if_false]
+      by_cases h2 : t ≤ old.t
+      · simp [h2]
+      · simp only [h2, if_false]; exact ih (mapE e) _ h.tail
+
+theorem avgInterp_S (u) (step : Option Rat) (d : List (Entry Stored)) (p t : Int) (h : HAll u d) :
+    avgInterpS u step d p t = TI.avgInterp step (d.map mapE) p t := by
+  cases d with
+  | nil => rfl
+  | cons e0 es =>
+    cases es with
+    | nil => simp [avgInterpS, TI.avgInterp, h.head, mapE]
+    | cons e1 es' =>
+      have e1' : (mapE e0).t = e0.t := rfl
+      have e3 : (⟨e0.t, val e0.v⟩ : Entry Rat) = mapE e0 := rfl
+      simp only [avgInterpS, TI.avgInterp, List.map, e1', h.head, e3]
+      by_cases h1 : t ≤ e0.t
+      · simp [h1, mapE]
+      · simp only [h1, if_false]
+        have := loop_S u step true p t (mapE e0) (e1 :: es') none h.tail
+        simp only [List.map] at this
+        rw [this]
+        by_cases h2 : t - p > 0
+        · simp only [h2, if_true]; rfl
+        · simp only [h2, if_false]
+
+theorem sumInterp_S (u) (step : Option Rat) (perTime : Bool) (initUs : Int) (d : List (Entry Stored))
+    (p t : Int) (h : HAll u d) :
+    sumInterpS u step perTime initUs d p t = TI.sumInterp step perTime initUs (d.map mapE) p t := by
+  cases d with
+  | nil => rfl
+  | cons e0 es =>
+    cases es with
+    | nil => simp [sumInterpS, TI.sumInterp, h.head, mapE]
+    | cons e1 es' =>
+      have e1' : (mapE e0).t = e0.t := rfl
+      have e3 : (⟨e0.t, val e0.v⟩ : Entry Rat) = mapE e0 := rfl
+      simp only [sumInterpS, TI.sumInterp, List.map, e1', h.head, e3]
+      by_cases h1 : t ≤ e0.t
+      · simp [h1]
+      · simp only [h1, if_false]
+        have := loop_S u step perTime p t (mapE e0) (e1 :: es') none h.tail
+        simp only [List.map] at this
+        rw [this]
+        cases TI.loop step perTime p t (mapE e0) (mapE e1 :: es'.map mapE) none <;> rfl
+
+/-- **the read path of every slot kind sees through the spill** -/
+theorem read_transparent (k : SlotKind) (u) (d : List (Entry Stored)) (prev : Option Int) (t : Int)
+    (h : HAll u d) : readS k u d prev t = readR k (d.map mapE) prev t := by
+  cases k with
+  | output => exact lookup_S u d t h
+  | next =>
+    simp only [readS, readR, TA.getData, checkRange_map, TA.interp]
+    cases checkRange d t with
+    | error x => rfl
+    | ok _ => exact nextInterp_S u d t h
+  | prev =>
+    simp only [readS, readR, TA.getData, checkRange_map, TA.interp]
+    cases checkRange d t with
+    | error x => rfl
+    | ok _ => exact prevInterp_S u d t h
+  | step pos =>
+    simp only [readS, readR, TA.getData, checkRange_map, TA.interp]
+    cases checkRange d t with
+    | error x => rfl
+    | ok _ => exact stepInterp_S u pos d t h
+  | linear =>
+    simp only [readS, readR, TA.getData, checkRange_map, TA.interp]
+    cases checkRange d t with
+    | error x => rfl
+    | ok _ => simp only [linInterp_S u d t h]
+  | stack =>
+    simp only [readS, readR, checkRange_map]
+    cases checkRange d t with
+    | error x => rfl
+    | ok _ => exact stack_S u d t h
+  | avg step =>
+    simp only [readS, readR, checkRange_map]
+    cases checkRange d t with
+    | error x => rfl
+    | ok _ =>
+      cases prev with
+      | none => rfl
+      | some p => simp only [avgInterp_S u step d p t h]
+  | sum step perTime initUs =>
+    simp only [readS, readR, checkRange_map]
+    cases checkRange d t with
+    | error x => rfl
+    | ok _ =>
+      cases prev with
+      | none => rfl
+      | some p => simp only [sumInterp_S u step perTime initUs d p t h]
+
+/-! ### The file system -/
+
+theorem lookupF_append_of_some (l l' : List (File × Rat)) (k : File) (g : Rat)
+    (h : lookupF l k = some g) : lookupF (l ++ l') k = some g := by
+  induction l with
+  | nil => simp [lookupF] at h
+  | cons a l ih =>
+    obtain ⟨a1, a2⟩ := a
+    simp only [List.cons_append, lookupF] at *
+    by_cases hk : a1 = k
+    · simp only [hk, if_true] at *; exact h
+    · simp only [hk, if_false] at *; exact ih h
+
+theorem lookupF_append_fresh (l : List (File × Rat)) (k : File) (v : Rat)
+    (h : ∀ p ∈ l, p.1 ≠ k) : lookupF (l ++ [(k, v)]) k = some v := by
+  induction l with
+  | nil => simp [lookupF]
+  | cons a l ih =>
+    obtain ⟨a1, a2⟩ := a
+    have hne : ¬ a1 = k := h (a1, a2) (by simp)
+    simp only [List.cons_append, lookupF, hne, if_false]
+    exact ih (fun p hp => h p (List.mem_cons_of_mem _ hp))
+
+theorem lookupF_remove_ne (l : List (File × Rat)) (k f : File) (h : k ≠ f) :
+    lookupF (removeF l f) k = lookupF l k := by
+  induction l with
+  | nil => rfl
+  | cons a l ih =>
+    obtain ⟨a1, a2⟩ := a
+    simp only [removeF]
+    by_cases ha : a1 = f
+    · subst ha
+      have hne : ¬ a1 = k := fun hh => h hh.symm
+      simp only [if_true, lookupF, hne, if_false]
+      exact ih
+    · simp only [ha, if_false, lookupF]
+      by_cases hk : a1 = k
+      · simp [hk]
+      · simp only [hk, if_false]; exact ih
+
+theorem keys_remove (l : List (File × Rat)) (f : File) :
+    (removeF l f).map (·.1) = (l.map (·.1)).filter (fun k => decide (k ≠ f)) := by
+  induction l with
+  | nil => rfl
+  | cons a l ih =>
+    obtain ⟨a1, a2⟩ := a
+    simp only [removeF, List.map]
+    by_cases ha : a1 = f
+    · simp [ha, List.filter_cons, ih]
+    · simp [ha, List.filter_cons, ih]
+
+theorem diskFiles_append (d : List (Entry Stored)) (e : Entry Stored) :
+    diskFiles (d ++ [e]) = diskFiles d ++ (match e.v with | .inRam _ _ => [] | .onDisk f _ => [f]) := by
+  induction d with
+  | nil => simp only [List.nil_append, diskFiles]; cases e.v <;> rfl
+  | cons a d ih =>
+    simp only [List.cons_append, diskFiles]
+    cases a.v <;> simp [ih]
+
+theorem mem_diskFiles (d : List (Entry Stored)) (e : Entry Stored) (f : File) (g : Rat)
+    (he : e ∈ d) (hv : e.v = .onDisk f g) : f ∈ diskFiles d := by
+  induction d with
+  | nil => cases he
+  | cons a d ih =>
+    simp only [diskFiles]
+    cases he with
+    | head => simp [hv]
+    | tail _ h => cases a.v <;> simp [ih h]
+
+theorem ramBytes_append (d : List (Entry Stored)) (e : Entry Stored) :
+    ramBytes (d ++ [e]) = ramBytes d + ramBytes [e] := by
+  induction d with
+  | nil => simp [ramBytes]
+  | cons a d ih => simp only [List.cons_append, ramBytes, ih]; omega
+
+/-- consistency of a buffer with the disk -/
+structure FInv (c : Cfg) (d : List (Entry Stored)) (fs : List (File × Rat)) (counter : Nat) : Prop where
+  content : ∀ e ∈ d, ∀ f g, e.v = .onDisk f g → lookupF fs f = some g
+  keys : fs.map (·.1) = diskFiles d
+  nodup : (diskFiles d).Nodup
+  fresh : ∀ f ∈ diskFiles d, f.n < counter ∧ f.slot = c.slotId ∧ f.dir = c.loc.getD ""
+
+theorem hall_of_finv (c : Cfg) (hu : c.unpackUnits = c.inUnits) {d fs n} (h : FInv c d fs n) :
+    HAll (unpack c fs) d := by
+  intro e he
+  cases hv : e.v with
+  | inRam v size => rfl
+  | onDisk f g =>
+    have := h.content e he f g hv
+    simp [unpack, this, hu, val]
+
+theorem finv_nil (c : Cfg) (n : Nat) : FInv c [] [] n where
+  content := by intro e he; cases he
+  keys := rfl
+  nodup := List.nodup_nil
+  fresh := by intro f hf; cases hf
+
+theorem finv_push (c : Cfg) (s : SState) (t : Int) (v : Rat) (size : Nat)
+    (h : FInv c s.data s.fs s.counter) :
+    FInv c (s.data ++ [⟨t, (pack c s v size).2⟩]) (pack c s v size).1.fs (pack c s v size).1.counter := by
+  simp only [pack]
+  by_cases hsp : spills c s.total size = true
+  · simp only [hsp, if_true]
+    have hfresh : ∀ p ∈ s.fs, p.1 ≠ ⟨c.loc.getD "", c.slotId, s.counter⟩ := by
+      intro p hp hpe
+      have hm : p.1 ∈ s.fs.map (·.1) := List.mem_map_of_mem hp
+      rw [h.keys] at hm
+      have := (h.fresh _ hm).1
+      rw [hpe] at this
+      simp at this
+    refine ⟨?_, ?_, ?_, ?_⟩
+    · intro e he f g hv
+      rcases List.mem_append.mp he with h1 | h1
+      · exact lookupF_append_of_some _ _ _ _ (h.content e h1 f g hv)
+      · simp only [List.mem_singleton] at h1
+        subst h1
+        simp only [Stored.onDisk.injEq] at hv
+        obtain ⟨hf, hg⟩ := hv
+        subst hf; subst hg
+        exact lookupF_append_fresh _ _ _ hfresh
+    · simp [diskFiles_append, h.keys]
+    · rw [diskFiles_append]
+      simp only []
+      rw [List.nodup_append]
+      refine ⟨h.nodup, by simp, ?_⟩
+      intro a ha b hb
+      simp only [List.mem_singleton] at hb
+      subst hb
+      intro hab
+      have := (h.fresh a ha).1
+      rw [hab] at this
+      simp at this
+    · intro f hf
+      rw [diskFiles_append] at hf
+      rcases List.mem_append.mp hf with h1 | h1
+      · obtain ⟨a, b, c'⟩ := h.fresh f h1
+        exact ⟨by omega, b, c'⟩
+      · simp only [List.mem_singleton] at h1
+        subst h1
+        exact ⟨by simp, rfl, rfl⟩
+  · have hsp' : spills c s.total size = false := by simpa using hsp
+    simp only [hsp', Bool.false_eq_true, if_false]
+    refine ⟨?_, ?_, ?_, ?_⟩
+    · intro e he f g hv
+      rcases List.mem_append.mp he with h1 | h1
+      · exact h.content e h1 f g hv
+      · simp only [List.mem_singleton] at h1
+        subst h1
+        cases hv
+    · simp [diskFiles_append, h.keys]
+    · simp [diskFiles_append, h.nodup]
+    · intro f hf
+      simp only [diskFiles_append, List.append_nil] at hf
+      exact h.fresh f hf
+
+theorem finv_tail (c : Cfg) (e0 : Entry Stored) (d : List (Entry Stored)) (total : Int)
+    (fs : List (File × Rat)) (n : Nat) (h : FInv c (e0 :: d) fs n) :
+    ∃ total' fs', dropEntry total fs e0.v = .ok (total', fs') ∧ FInv c d fs' n ∧
+      total' - ramBytes d = total - ramBytes (e0 :: d) := by
+  cases hv : e0.v with
+  | inRam v size =>
+    refine ⟨total - size, fs, rfl, ⟨?_, ?_, ?_, ?_⟩, ?_⟩
+    · intro e he f g hve; exact h.content e (List.mem_cons_of_mem _ he) f g hve
+    · have := h.keys; simpa [diskFiles, hv] using this
+    · have := h.nodup; simpa [diskFiles, hv] using this
+    · intro f hf; exact h.fresh f (by simpa [diskFiles, hv] using hf)
+    · simp only [ramBytes, hv]; omega
+  | onDisk f g =>
+    have hl := h.content e0 (by simp) f g hv
+    have hkeys : fs.map (·.1) = f :: diskFiles d := by have := h.keys; simpa [diskFiles, hv] using this
+    have hnd : (f :: diskFiles d).Nodup := by have := h.nodup; simpa [diskFiles, hv] using this
+    have hnotin : f ∉ diskFiles d := (List.nodup_cons.mp hnd).1
+    refine ⟨total, removeF fs f, by simp [dropEntry, hl], ⟨?_, ?_, ?_, ?_⟩, ?_⟩
+    · intro e he f' g' hve
+      have hm := mem_diskFiles d e f' g' he hve
+      have hne : f' ≠ f := fun hh => hnotin (hh ▸ hm)
+      rw [lookupF_remove_ne _ _ _ hne]
+      exact h.content e (List.mem_cons_of_mem _ he) f' g' hve
+    · rw [keys_remove, hkeys]
+      simp only [List.filter_cons, ne_eq, not_true_eq_false, decide_false]
+      apply List.filter_eq_self.mpr
+      intro a ha
+      have : a ≠ f := fun hh => hnotin (hh ▸ ha)
+      simpa using this
+    · exact (List.nodup_cons.mp hnd).2
+    · intro f' hf'; exact h.fresh f' (by simp [diskFiles, hv, hf'])
+    · simp only [ramBytes, hv]; omega
+
+/-- the eviction loop never fails, removes exactly the files of the discarded entries, keeps the
+    accounting, and discards what the plain `clear` discards -/
+theorem evictS_spec (c : Cfg) (n : Nat) : ∀ (d : List (Entry Stored)) (total : Int) (fs : List (File × Rat)) (m : Int),
+    FInv c d fs n →
+    ∃ total' fs', evictS d total fs m = .ok (clear d m, total', fs') ∧ FInv c (clear d m) fs' n ∧
+      total' - ramBytes (clear d m) = total - ramBytes d := by
+  intro d
+  induction d with
+  | nil => intro total fs m h; exact ⟨total, fs, rfl, h, rfl⟩
+  | cons e0 d ih =>
+    intro total fs m h
+    cases d with
+    | nil => exact ⟨total, fs, rfl, h, rfl⟩
+    | cons e1 es =>
+      simp only [evictS, clear]
+      by_cases hle : e1.t ≤ m
+      · simp only [hle, if_true]
+        obtain ⟨total1, fs1, hd, hinv1, hacc1⟩ := finv_tail c e0 (e1 :: es) total fs n h
+        obtain ⟨total2, fs2, he, hinv2, hacc2⟩ := ih total1 fs1 m hinv1
+        refine ⟨total2, fs2, ?_, hinv2, by omega⟩
+        rw [hd]; exact he
+      · simp only [hle, if_false]
+        exact ⟨total, fs, rfl, h, rfl⟩
+
+theorem clear_map (d : List (Entry Stored)) (m : Int) : (clear d m).map mapE = clear (d.map mapE) m := by
+  induction d with
+  | nil => rfl
+  | cons e0 d ih =>
+    cases d with
+    | nil => rfl
+    | cons e1 es =>
+      simp only [List.map, clear]
+      have : (mapE e1).t = e1.t := rfl
+      rw [this]
+      by_cases hle : e1.t ≤ m
+      · simp only [hle, if_true]; exact ih
+      · simp only [hle, if_false, List.map]
+
+/-- finalisation never fails and removes every remaining file -/
+theorem finalizeFs_spec (c : Cfg) (n : Nat) : ∀ (d : List (Entry Stored)) (fs : List (File × Rat)),
+    FInv c d fs n → finalizeFs d fs = .ok [] := by
+  intro d
+  induction d with
+  | nil =>
+    intro fs h
+    have := h.keys
+    simp only [diskFiles, List.map_eq_nil_iff] at this
+    simp [finalizeFs, this]
+  | cons e0 d ih =>
+    intro fs h
+    obtain ⟨total', fs', hd, hinv, _⟩ := finv_tail c e0 d 0 fs n h
+    simp only [finalizeFs]
+    cases hv : e0.v with
+    | inRam v size =>
+      simp only [hv, dropEntry, Except.ok.injEq, Prod.mk.injEq] at hd
+      simp only
+      rw [hd.2]; exact ih fs' hinv
+    | onDisk f g =>
+      simp only [hv, dropEntry] at hd
+      have hl := h.content e0 (by simp) f g hv
+      simp only [hl, Option.isSome_some, if_true, Except.ok.injEq, Prod.mk.injEq] at hd
+      simp only [hl, Option.isSome_some, if_true]
+      rw [hd.2]; exact ih fs' hinv
+
+/-! ### Simulation: the spilling slot against the all-in-RAM slot -/
+
+structure Sim (c : Cfg) (s : SState) (r : RState) : Prop where
+  data : r.data = s.data.map mapE
+  prev : r.prev = s.prev
+  last : r.last = s.last
+  finv : FInv c s.data s.fs s.counter
+
+theorem sim_init (c : Cfg) (n : Nat) : Sim c (initS n) (initR n) :=
+  ⟨rfl, rfl, rfl, finv_nil c 0⟩
+
+theorem sim_step (c : Cfg) (hu : c.unpackUnits = c.inUnits) (s : SState) (r : RState) (h : Sim c s r)
+    (ev : Ev) : (stepS c s ev).2 = (stepR c.kind r ev).2 ∧ Sim c (stepS c s ev).1 (stepR c.kind r ev).1 := by
+  cases ev with
+  | push t v size =>
+    refine ⟨rfl, ?_⟩
+    have hp := finv_push c s t v size h.finv
+    simp only [stepS, stepR]
+    refine ⟨?_, ?_, ?_, ?_⟩
+    · simp only [pack]
+      split <;> simp [h.data, mapE, val]
+    · simp only [h.prev]
+    · simp only [pack]; split <;> exact h.last
+    · have hd : (pack c s v size).1.data = s.data := by simp only [pack]; split <;> rfl
+      simp only [hd]; exact hp
+  | pull k t =>
+    have hall := hall_of_finv c hu h.finv
+    have hread := read_transparent c.kind (unpack c s.fs) s.data s.prev t hall
+    simp only [stepS, stepR]
+    rw [hread, h.data, h.prev, h.last]
+    cases hr : readR c.kind (s.data.map mapE) s.prev t with
+    | error x => exact ⟨rfl, ⟨h.data, h.prev, h.last, h.finv⟩⟩
+    | ok vs =>
+      simp only
+      cases hm : evictTime c.kind s.prev (if c.kind = SlotKind.output then s.last.set k (some t) else s.last) t with
+      | none => exact ⟨rfl, ⟨rfl, rfl, rfl, h.finv⟩⟩
+      | some m =>
+        simp only []
+        obtain ⟨total', fs', he, hinv, _⟩ := evictS_spec c s.counter s.data s.total s.fs m h.finv
+        rw [he]
+        exact ⟨rfl, ⟨by simp only [clear_map], rfl, rfl, hinv⟩⟩
+  | finalize =>
+    simp only [stepS, stepR]
+    rw [finalizeFs_spec c s.counter s.data s.fs h.finv]
+    exact ⟨rfl, ⟨rfl, h.prev, h.last, finv_nil c s.counter⟩⟩
 
 end Finam.SP
